@@ -389,7 +389,7 @@ func MutexFields(T *types.Named) []string {
 	for i := 0; i < st.NumFields(); i++ {
 		f := st.Field(i)
 		if ir.IsMutexType(f.Type()) {
-			out = append(out, T.Obj().Name()+"."+f.Name())
+			out = append(out, ir.TypeKey(T)+"."+f.Name())
 		}
 	}
 	return out
